@@ -48,6 +48,10 @@ def cases(tier, seed):
     for t in range(4):
         for route in ('pb', 'api'):
             out.append({'k': 'late', 't': t, 'route': route})
+    # the processor shipped with the agent (Prometheus client): what a scrape would see after two hits
+    for t in range(4):
+        for shape in ('one', 'two-namespaces', 'default-and-named', 'labels', 'no-help-unit'):
+            out.append({'k': 'prometheus', 't': t, 'shape': shape})
     return out
 
 
@@ -135,7 +139,69 @@ def norm(call):
     return (proc, kind, name, tuple(sorted(labels.items())), ns, help_ or None, unit or None, float(value))
 
 
+def prometheus(ctx, desc):
+    """Two hits (n = 5) through the real PrometheusPlugin; the registry must show every defined metric under its own namespace_name with
+    the reported values (counter: sum; histogram / summary: count and sum; gauge: present)."""
+    from deep.api.plugin.metric.prometheus_metrics import PrometheusPlugin
+    from deep.api.tracepoint.tracepoint_config import MetricDefinition, LabelExpression
+    from deep.api.tracepoint.trigger import build_trigger
+    from prometheus_client import REGISTRY
+    ns, path = prog()
+    t = TYPES[desc['t']]
+    shape = desc['shape']
+    tag = 'c17p%d%s' % (desc['t'], shape.replace('-', ''))
+    if shape == 'one':
+        defs = [MetricDefinition(tag, t, [], 'n', 'shop', 'h', 'items')]
+    elif shape == 'two-namespaces':
+        defs = [MetricDefinition(tag, t, [], 'n', 'shop', 'h', 'items'), MetricDefinition(tag, t, [], 'n * 2', 'billing', 'h', 'items')]
+    elif shape == 'default-and-named':
+        defs = [MetricDefinition(tag, t, [], 'n', None, 'h', 'items'), MetricDefinition(tag, t, [], 'n * 2', 'billing', 'h', 'items')]
+    elif shape == 'labels':
+        defs = [MetricDefinition(tag, t, [LabelExpression('ls', 'sv', None), LabelExpression('lx', None, 'n + 1')], 'n', 'shop', 'h', 'items')]
+    else:
+        defs = [MetricDefinition(tag, t, [], 'n')]
+    j = rig.Journal()
+    plugin = PrometheusPlugin(None)
+    agent = rig.Agent(plugins=[plugin], journal=j)
+    agent.install([build_trigger('tp-m', 'c17prog.py', LINE, {'fire_count': '2', 'fire_period': '0', 'snapshot': 'no_collect'}, [], defs)])
+    ctx.case()
+    ctx.nt(('prometheus', t, shape))
+    try:
+        with rig.VirtualClock():
+            run = Forwarder({path}, agent.handler).call(ns['target'], 5, ns['Thing'](), 2)
+        if run.escaped or run.exc is not None:
+            ctx.violation('C17/prometheus/handler-raised', f'{desc}: {run.escaped[:1] or run.exc!r}', desc)
+            return
+        problems = []
+        for d in defs:
+            nsname = d.namespace or 'deep'
+            value = 5.0 if d.expression == 'n' else 10.0
+            labels = {lb.key: (lb.static if lb.static is not None else '6') for lb in d.labels}
+            base = '%s_%s' % (nsname, d.name) + ('_' + d.unit if d.unit else '')
+            if t == 'counter':
+                got = REGISTRY.get_sample_value(base + '_total', labels)
+                want = 2 * value
+            elif t == 'gauge':
+                got = REGISTRY.get_sample_value(base, labels)
+                want = got if got is not None else 'present'
+            else:
+                got = (REGISTRY.get_sample_value(base + '_count', labels), REGISTRY.get_sample_value(base + '_sum', labels))
+                want = (2.0, 2 * value)
+            if got != want:
+                problems.append(f'{base}{labels or ""}: registry shows {got}, two hits reported {value} each (want {want})')
+        ctx.outcome(('prometheus', t, shape, len(problems)))
+        if problems:
+            ctx.violation(f'C17/prometheus/{shape}/{t}', f'definitions {[(d.namespace, d.name, d.expression) for d in defs]} through the shipped Prometheus processor: ' + '; '.join(problems), desc)
+    finally:
+        try:
+            plugin.clear()
+        except BaseException:
+            pass
+
+
 def run_case(ctx, desc):
+    if desc.get('k') == 'prometheus':
+        return prometheus(ctx, desc)
     if desc.get('k') == 'chunk':
         for it in desc['items']:
             one(ctx, it)
